@@ -287,9 +287,14 @@ theorem linePaintAt_length (f : LineFeature R) (ctx : Ctx R) (q : Query R) (h : 
     cases h0 : idx blk 0 with
     | error e => simp [h0, bind, Except.bind] at hb
     | ok old =>
-      simp [h0, bind, Except.bind, pure, Except.pure] at hb
-      subst hb
-      rw [writeBlock_zero] <;> simp [← hsz]
+      simp only [h0, bind, Except.bind] at hb
+      split at hb
+      · simp at hb
+      · split at hb
+        · simp at hb
+        · simp [pure, Except.pure] at hb
+          subst hb
+          rw [writeBlock_zero] <;> simp [← hsz]
   | 2, hsz =>
     simp only [Option.some.injEq] at hsz
     simp only [linePaintAt] at hb
@@ -353,8 +358,13 @@ theorem linePaintAt_shift (f : LineFeature R) (ctx : Ctx R) (q : Query R) (h : L
     cases h0 : idx blk 0 with
     | error e => simp [bind, Except.bind, embedE]
     | ok old =>
-      simp only [bind, Except.bind, pure, Except.pure, embedE]
-      rw [writeBlock_append _ _ _ _ (by simp [← hsz]), writeBlock_zero _ _ (by simp [← hsz])]
+      simp only [bind, Except.bind]
+      split
+      · simp [embedE]
+      · split
+        · simp [embedE]
+        · simp only [pure, Except.pure, embedE]
+          rw [writeBlock_append _ _ _ _ (by simp [← hsz]), writeBlock_zero _ _ (by simp [← hsz])]
   | 2, hsz =>
     simp only [Option.some.injEq] at hsz
     have hpos : 0 < blk.length := by omega
